@@ -319,7 +319,7 @@ def main():
     quick = run.tier == 'quick'
     run.bounds = {'indices': '0..29 x 0..29 exhaustive', 'flags': 'real in [-1,1]', 'xi,xi1,xi2': '[-1,1]',
                   'c0,c1': '|c0|+|c1|<=1', 'gauss_orders': '2..64', 'tolerance': '1e-12 * sum|exact coef|',
-                  'families': 'quick: 6 full-interval + rows i = seed mod 3 of the 11 others; thorough: all 17 complete'}
+                  'families': 'all 17 complete in both tiers (the quick tier differs in the trapezoid / Simpson grids only)'}
     run.assume('real arithmetic; IEEE evaluation error of the polynomials is outside the claim',
                'decimal literals are read as the doubles the compiler stores',
                'flags, xi in [-1,1] (monomial abstraction is sound on that box)')
@@ -329,8 +329,6 @@ def main():
             jobs.append((name, d1, d2, i))
     for name, d1, d2 in SUB + MAPPED:
         for i in range(30):
-            if quick and (i % 3) != (run.seed % 3):
-                continue
             jobs.append((name, d1, d2, i))
     for f in sorted(set(FILES.values())) + ['bardell_functions.c', 'legendre_gauss_quadrature.c']:
         run.encoded('compmech/lib/src/' + f, '*')
